@@ -10,7 +10,7 @@ from mc import lib, pmodel
 PROPERTY = 'C13'
 RULE = ('full product: every residue string of length 1..L over {P,E,K} x pre-existing modifications on <=Pm of the '
         'residue/terminal slots x 16 internal rule sets (residue, class, multi-residue, look-behind targets; 1-3 groups of '
-        '1-2 mods; two overlapping sets) x 11 N-terminal x 11 C-terminal rule forms (incl. alternation conditions) x max_mods 0..4 x 3 modes x 2 return '
+        '1-2 mods; two overlapping sets) x 13 N-terminal x 13 C-terminal rule forms (incl. alternation conditions and two rules applying at once) x max_mods 0..4 x 3 modes x 2 return '
         'types; rule values as texts, Mod objects and mixtures; a state = (string, pre-mods, rules); non-trivial = at least one rule matches a site')
 ASSUMPTIONS = ['exact clauses only for rule sets whose targets do not overlap on a residue; overlapping sets get the weak '
                'clauses of the quantifier', 'terminal variants do not count against max_mods (pinned doctest)',
@@ -29,7 +29,8 @@ OVERLAPPING = {14, 15}
 QUICK_SKIP_AT_3 = {0, 3, 4, 8, 10, 11, 12, 13}   # rule sets explored on strings of length <= 2 only in the quick tier
 TERM = [None, 'n1', [['n1'], ['n2']], {'': 'n1'}, {'P': [['n1']]}, {'K': 'n1', 'E': [['n2']]}, {'.': 'n1'},
         ['n1'], [['n1']], ['n1', 'n2'],   # a list with one member, one group with one member, one group with two
-        {'K|E': 'n1'}, {'P|K': [['n1'], ['n2']]}]   # residue conditions that are top-level alternations
+        {'K|E': 'n1'}, {'P|K': [['n1'], ['n2']]},   # residue conditions that are top-level alternations
+        {'': 'n1', 'P': 'n2'}, {'[PE]': 'n1', 'P': [['n2']]}]   # two rules that can both apply to one terminus
 # the static builder takes one list of mods per target (no alternative groups): the first group of each rule
 TERM_PAIRS = [(a, 0) for a in range(len(TERM))] + [(0, b) for b in range(1, len(TERM))] + \
     [(a, b) for a in (1, 2, 4) for b in (1, 2, 4)]
